@@ -647,12 +647,16 @@ class SymArr:
     def copy(self):
         return SymArr.fresh(self.shape_, self.snapshot(), self.kind, self.dtype)
 
-    def ravel(self):
+    def ravel(self, order="C"):
+        if order not in ("C", None):
+            raise Unsupported(f"ravel(order={order!r}): the memory layout of an array is not modelled (only the logical, C-ordered index space is)")
         if self.ndim == 1:
             return self
         return self.flatten_view()
 
-    def flatten(self):
+    def flatten(self, order="C"):
+        if order not in ("C", None):
+            raise Unsupported(f"flatten(order={order!r}): the memory layout of an array is not modelled")
         r = self.flatten_view()
         return SymArr.fresh(r.shape_, r.snapshot(), self.kind, self.dtype)
 
